@@ -112,6 +112,19 @@ func (k Keeper) ToggleClient(
 		return sdkerrors.Wrapf(types.ErrInvalidClientType, "cannot toggle client %s, client-type can't be the same", chainName)
 	}
 
+	// the new client type cannot read anything the old type stored: remove the old client state,
+	// consensus states and metadata so that they do not shadow the new client's records
+	clientStore := k.ClientStore(ctx, chainName)
+	var oldKeys [][]byte
+	iterator := clientStore.Iterator(nil, nil)
+	for ; iterator.Valid(); iterator.Next() {
+		oldKeys = append(oldKeys, append([]byte{}, iterator.Key()...))
+	}
+	iterator.Close()
+	for _, key := range oldKeys {
+		clientStore.Delete(key)
+	}
+
 	k.SetClientState(ctx, chainName, newClientState)
 	// initialize the client store with the metadata of the NEW client type
 	if err := newClientState.Initialize(ctx, k.cdc, k.ClientStore(ctx, chainName), newConsensusState); err != nil {
